@@ -101,7 +101,10 @@ def collect(rep, tr, cases, jobs, accept, sigx=None):
     for b in tr.bad:
         c = cases[b["case"]]
         b["_case"] = c
-        if not accept(b):
+        # (a payload that no standard decoder accepts carries no field the template asked for: it concerns every
+        # property that reads the compiled transaction, not only C10)
+        undecodable = b["why"] == "malformed" and b["detail"].get("reason") == "not-conway"
+        if not (accept(b) or undecodable):
             continue
         j = jobs[b["case"]]
         sig = sig_of(b)
@@ -436,6 +439,14 @@ def check_c10(tier, seed):
         cases = keep + rest[:max(limit - len(keep), 0)]
         rep.exhaustive = False
         rep.notes.append(f"core lattice sampled to {max(limit - len(keep), 0)} subsets; all {len(keep)} subsets with chain-specific blocks kept")
+    # data of every tag family in the datum / a redeemer (constructor alternatives at both ends of the compact, the extended
+    # and the general form): whatever the constructor, the payload must remain one a standard decoder accepts
+    wide = gen_ledger(rep, "c09", "c10_ctor", ixs=(0, 6, 7, 127, 128, 129, 139), nfs=(0, 1), workers=6)
+    for c in wide:
+        m = c["meta"]
+        if m["ty"] == "Int" and not m["rev"]:
+            c["meta"] = {"fs": [f"ctor_{m['ix']}", f"fields_{m['nf']}", m["where"]]}
+            cases.append(c)
     # configurations: network x cost models
     full = []
     for i, c in enumerate(cases):
